@@ -362,7 +362,7 @@ def judge_pagecodec(chk, cases, rres, res):
 
 def dir2_descs(tier, workers=None):
     if tier == "quick":
-        consts = ("LitLens = {1, 5, 12, 2100}\nRepOffs = {1, 8, 2048}\nRepLens = {4, 12, 64, 65, 66, 67, 68, 264}\n"
+        consts = ("LitLens = {1, 5, 12, 61, 2100}\nRepOffs = {1, 8, 2048}\nRepLens = {4, 12, 64, 65, 66, 67, 68, 264}\n"
                   "Pads <- PadNone\nMaxSegs = 3\nMaxTotal = 2700\nConfigs <- CfgLz\nCapSels <- CapB")
     else:
         consts = ("LitLens = {1, 4, 5, 6, 11, 12, 13, 61, 257, 2100}\nRepOffs = {1, 2, 7, 8, 2047, 2048}\n"
